@@ -40,12 +40,17 @@ PROPS = {
     "C12": dict(fams=[("trivia", 2000, "fast"), ("text", 1500, "fast"), ("malformed", 2000, "fast"), ("deep", 1, "fast")], mult=10),
     "C13": dict(fams=[("pp", 4000, "fast"), ("ppfix", 1, "fast"), ("pp", 1000, "nofast")], mult=10),
     "C14": dict(fams=[("serde", 1500, "fast"), ("deser", 1500, "fast")], mult=20),
-    "C15": dict(fams=[("values", 1500, "fast"), ("alist", 1500, "fast")], mult=20),
-    "C16": dict(fams=[], mult=1, special="depth"),
+    "C15": dict(fams=[("values", 1500, "fast"), ("alist", 1500, "fast"), ("consops", 2000, "fast"), ("consops", 500, "nofast")], mult=20),
+    "C16": dict(fams=[("consops", 1200, "fast")], mult=1, special="depth"),
     "C17": dict(fams=[("malformed", 3000, "fast"), ("text", 600, "fast"), ("print", 800, "fast"), ("escapes", 1, "fast"), ("chars", 1, "fast")], mult=10),
     "C18": dict(fams=[("deser", 3000, "fast")], mult=20),
     "C19": dict(fams=[("prefix", 250, "fast"), ("malformed", 2000, "fast"), ("escapes", 1, "fast"), ("prefix", 80, "nofast")], mult=10),
     "C20": dict(fams=[("prims", 2500, "fast"), ("values", 800, "fast")], mult=20),
+}
+
+EXTRA_MODULES = {
+    "C15": ["LexprModel.Proofs.ConsOpsAll"],
+    "C16": ["LexprModel.Proofs.ConsOpsAll"],
 }
 
 def log(msg):
@@ -455,9 +460,11 @@ def run_check(prop, tier, seed, replay):
         notes.append("Generated/Tables.lean changed with respect to the previous run")
     # 3. proofs
     prop_module = "LexprModel.Props." + prop
-    modules = [prop_module, "LexprModel.TablesCheck"]
+    # proof modules that build ON TOP of the property file (they import it) and belong to the property
+    extra = [m for m in EXTRA_MODULES.get(prop, []) if os.path.exists(os.path.join(LEAN, m.replace(".", "/") + ".lean"))]
+    modules = [prop_module] + extra + ["LexprModel.TablesCheck"]
     have_props = os.path.exists(os.path.join(LEAN, "LexprModel", "Props", prop + ".lean"))
-    targets = (["LexprModel.Props." + prop] if have_props else []) + ["LexprModel.TablesCheck", "driver"]
+    targets = (["LexprModel.Props." + prop] if have_props else []) + extra + ["LexprModel.TablesCheck", "driver"]
     checker_cmd = "cd /verif/lean && lake build " + " ".join(targets)
     okb, out, dt = lake_build(targets)
     names, axioms, problems = [], {}, []
